@@ -86,6 +86,32 @@ def mentions(ty, eid):
     return False
 
 
+def type_class(ty, eid, idx):
+    """the shape of a (JSON) type as far as the documented signatures go: self | opt_self | prim | str | struct:<name> | other"""
+    def is_self(t):
+        return isinstance(t, dict) and (t.get("generic") == "Self" or (isinstance(t.get("resolved_path"), dict) and t["resolved_path"].get("id") == eid))
+    if ty is None:
+        return "unit"
+    if is_self(ty):
+        return "self"
+    if "primitive" in ty:
+        return "prim"
+    if "borrowed_ref" in ty:
+        b = ty["borrowed_ref"]
+        return "str" if b.get("lifetime") == "'static" and not b.get("is_mutable") and (b.get("type") or {}).get("primitive") == "str" else "other"
+    rp = ty.get("resolved_path")
+    if isinstance(rp, dict):
+        if last_seg(rp.get("path", "")) == "Option":
+            args = ((rp.get("args") or {}).get("angle_bracketed") or {}).get("args") or []
+            if len(args) == 1 and is_self(args[0].get("type")):
+                return "opt_self"
+            return "other"
+        it = idx.get(str(rp.get("id")))
+        if it is not None and "struct" in it["inner"]:
+            return "struct:" + it["name"]
+    return "other"
+
+
 def observe(j, crate_cases):
     """{case_id: observation} from one rustdoc JSON document"""
     idx = j["index"]
@@ -136,8 +162,9 @@ def observe(j, crate_cases):
                 for k in im["items"]:
                     it = idx[str(k)]
                     kind = list(it["inner"].keys())[0]
+                    ty = it["inner"]["function"]["sig"].get("output") if kind == "function" else (it["inner"][kind].get("type") if kind == "assoc_const" else None)
                     items.append({"name": it["name"], "kind": {"function": "fn", "assoc_const": "const"}.get(kind, kind),
-                                  "vis": norm_vis(it["visibility"], path),
+                                  "vis": norm_vis(it["visibility"], path), "sig": type_class(ty, eid, idx),
                                   "isconst": bool(kind == "function" and it["inner"]["function"]["header"]["is_const"])})
             elif im["for"].get("resolved_path", {}).get("id") == eid and last_seg(im["trait"]["path"]) not in BUILTIN_DERIVE_ARTIFACTS:
                 traits.append(last_seg(im["trait"]["path"]))
